@@ -2,7 +2,7 @@
 import ast
 import os
 
-from sa.helpers import (the_return, mkflow, spec, code, one, calls, bind_call, param_env,
+from sa.helpers import (guard_is, the_return, mkflow, spec, code, one, calls, bind_call, param_env,
                         fmt, atom_of, unparse, walk_no_nested)
 from sa.index import AnalysisError, ClassInfo, FuncInfo, REPO
 from sa.algebra import RF, dotted
@@ -295,13 +295,23 @@ elif isinstance(V_val, str):
              under=['isinstance(V_val, list)', 'isinstance(V_val, str)', 'V_val.lower() in V_w1', 'V_val.lower() in V_w2'])
         # the boolean word sets: every `x.lower() in [literals]` test assigns the constant its words mean
         words = {}
-        for n in ast.walk(f.node):
-            if isinstance(n, ast.If) and isinstance(n.test, ast.Compare) and isinstance(n.test.ops[0], ast.In) \
-                    and isinstance(n.test.comparators[0], (ast.List, ast.Tuple, ast.Set)) and \
-                    unparse(n.test.left).endswith('.lower()'):
-                lits = frozenset(e.value for e in n.test.comparators[0].elts if isinstance(e, ast.Constant))
-                vals = [s.value.value for s in n.body if isinstance(s, ast.Assign) and isinstance(s.value, ast.Constant)]
-                words[lits] = vals
+        fl6 = mkflow(ix, site)
+        rv = the_return(fl6).value
+        for a_ in (rv.all_atoms() if rv is not None else []):
+            at = fl6.tab.atoms[a_]
+            if at.head != 'guard':
+                continue
+            ca = atom_of(fl6, at.args[0])
+            if ca is None or ca.head != 'cmp' or ca.extra[0] != 'In':
+                continue
+            ta = atom_of(fl6, ca.args[1])
+            la = atom_of(fl6, ca.args[0])
+            if ta is None or ta.head != 'tuple' or la is None or 'lower' not in fmt(fl6, ca.args[0]):
+                continue
+            lits = frozenset(str(atom_of(fl6, x).args[0]).strip("'\"") for x in ta.args if atom_of(fl6, x) is not None
+                             and atom_of(fl6, x).head == 'const')
+            then = fmt(fl6, at.args[1])
+            words[lits] = [True if then == 'True' else False if then == 'False' else then]
         why = []
         t = [v for k, v in words.items() if 'true' in k]
         fa = [v for k, v in words.items() if 'false' in k]
@@ -361,20 +371,20 @@ def strictness(ix, R, fams, table):
         if not (name.endswith('_factory') and name not in ('the_mixin_factory',)):
             continue
         nfac += 1
-        rets = [n for n in walk_no_nested(f.node) if isinstance(n, ast.Return)]
         why = []
         sel = f.params()[0]
+        fl = mkflow(ix, f)
+        rets = fl.of('return')
         for r in rets:
-            # enclosing if must be `selector in klass.input_keywords()`
-            ok = False
-            for i in ast.walk(f.node):
-                if isinstance(i, ast.If) and any(x is r for b in i.body for x in ast.walk(b)):
-                    if unparse(i.test) == '%s in klass.input_keywords()' % sel:
-                        ok = unparse(r.value) == 'klass'
+            # returned: the loop element, under `selector in <element>.input_keywords()` only
+            lp = r.loops[-1] if r.loops else None
+            el = fl.tab.atom('elem', (lp.iter_rf[0], lp.index)) if lp is not None and lp.iter_rf else None
+            ok = el is not None and r.value is not None and fl.tab.equal(r.value, el) and len(r.guards) == 1 and \
+                guard_is(fl, r.guards[0], spec(fl, 'S in K.input_keywords()', {'S': fl.tab.name(sel), 'K': el}), True)
             if not ok:
-                why.append('returns %s outside the membership test' % unparse(r.value))
-        last = f.body()[-1]
-        if not isinstance(last, ast.Raise):
+                why.append('returns %s outside the membership test' % unparse(r.value_ast))
+        rs = fl.of('raise')
+        if not rs or rs[-1].loops or [g for g in rs[-1].guards if not (g.early and g.exit <= {'return'})]:
             why.append('no raise after an unsuccessful loop')
         R.check('3.factory', 'DOM', f.site,
                 '%s returns a class only under `selector in klass.input_keywords()` and raises when nothing matched' % name,
